@@ -85,6 +85,8 @@ type Obligation struct {
 	Desc   string
 	Pos    string
 	enc    *Encoder
+	Block  *ssa.BasicBlock // block of the function under contract the obligation belongs to (nil: whole function)
+	Cases  []string        // incoming edge conditions of Block (case-split fallback)
 	// results
 	Status  string // proved, failed, unknown, error
 	Solver  string
